@@ -6,7 +6,10 @@ package elasticquota
 // See /verif/DESIGN.md section 4, C03 and /verif/HARNESS_GUIDE.md.
 //
 // What runs: a real Plugin (built by the package's own newPluginTestSuit + factory, informers never
-// started, hook plugins none, feature gates at their defaults). Quota, pod and node handlers are
+// started, hook plugins none). Feature gates are at their defaults except that, in 12% of the cases
+// each, ElasticQuotaIgnorePodOverhead, ElasticQuotaGuaranteeUsage and MultiQuotaTree are switched on
+// for the case (process globals, restored when the case ends). The quota informer's store is fed by
+// the harness before each quota handler call (the plugin's lister and namespace index read it). Quota, pod and node handlers are
 // called directly; PreFilter / Reserve / Unreserve are called the way one scheduling cycle does.
 //
 // Causal rules of the generated histories (what the real system can produce):
@@ -35,6 +38,27 @@ package elasticquota
 //     Growth by resize is not gated by any quota admission, so, like usage brought by a migration, it
 //     is exempt from the "max not lowered" clause until usage is seen within max again; the recount
 //     always uses the pod's latest object;
+//   * "the pod's request" is the effective pod request of the Kubernetes API: max(sum of the app
+//     containers, largest init container) plus the pod overhead (the overhead is left out when the
+//     ElasticQuotaIgnorePodOverhead gate is on); the monitor computes it from the shape it generated;
+//   * which quota a pod names: its quota-name label, else the quota that is named like the pod's
+//     namespace and lives in it, else the quota whose namespaces annotation lists the namespace, else
+//     the default group; pods labelled with the system group's name belong to the system group;
+//   * with MultiQuotaTree some top-level quotas are roots of trees of their own (tree-id on every quota
+//     of the subtree, is-root and total-resource on the root; the total changes by quota updates);
+//     late creation / deletion stays in the default tree (moving a pod between trees at migration
+//     goes through delete+add and is not C03's subject);
+//   * a pod whose deletion was requested (deletionTimestamp, constant value) is not scheduled any more
+//     and is not resized; it still gets its bind echo / roll-back / delete event;
+//   * where the reported runtime quota of a group lies above its max (only seen with the
+//     ElasticQuotaGuaranteeUsage gate) the statement does not decide an admission that fits the runtime
+//     but not max (it names the runtime as the limit and concludes used <= max): no admission verdict
+//     there in either direction (counter admitted_within_reported_runtime_above_max). With that gate on,
+//     "limit <= max" does not hold, so the refined reading of the last clause (max not lowered since
+//     usage was last within it) is not derivable: used <= max is then asserted only for a quota whose
+//     max was never lowered in the whole history (the literal clause) and whose reported runtime was
+//     never seen above max; the other cases are counted (converse_misses_used_above_*_under_guarantee_gate).
+//     With the gate off runtime <= max holds and the refined reading is asserted as before;
 //   * creating a quota over pods that are already running is, for the "max not lowered" clause, a
 //     lowering of that quota's (and, for the usage it brings along, its ancestors') max from
 //     "unlimited": usage above max found right after the migration is exempt until it is seen within
@@ -76,17 +100,20 @@ import (
 	"sort"
 	"strings"
 	"testing"
+	"time"
 
 	corev1 "k8s.io/api/core/v1"
 	"k8s.io/apimachinery/pkg/api/resource"
 	metav1 "k8s.io/apimachinery/pkg/apis/meta/v1"
 	"k8s.io/apimachinery/pkg/types"
+	k8sfeature "k8s.io/apiserver/pkg/util/feature"
 	"k8s.io/klog/v2"
 	fwktype "k8s.io/kube-scheduler/framework"
 	"k8s.io/kubernetes/pkg/scheduler/framework"
 
 	"github.com/koordinator-sh/koordinator/apis/extension"
 	"github.com/koordinator-sh/koordinator/apis/thirdparty/scheduler-plugins/pkg/apis/scheduling/v1alpha1"
+	koordfeatures "github.com/koordinator-sh/koordinator/pkg/features"
 	"github.com/koordinator-sh/koordinator/pkg/scheduler/apis/config"
 	frameworkexthelper "github.com/koordinator-sh/koordinator/pkg/scheduler/frameworkext/helper"
 	kit "github.com/koordinator-sh/koordinator/pkg/verifkit"
@@ -112,8 +139,15 @@ func c03Quiet() {
 
 const (
 	c03GPU        corev1.ResourceName = "example.com/gpu"
+	c03FPGA       corev1.ResourceName = "example.com/fpga"
+	c03Storage    corev1.ResourceName = corev1.ResourceEphemeralStorage
 	c03Undeclared corev1.ResourceName = "example.com/undeclared"
 )
+
+// every dimension a quota may declare (node allocatable is generated over these)
+var c03AllDims = []corev1.ResourceName{corev1.ResourceCPU, corev1.ResourceMemory, c03GPU, c03FPGA, c03Storage}
+
+func c03Countable(d corev1.ResourceName) bool { return d == c03GPU || d == c03FPGA }
 
 type c03Vec map[corev1.ResourceName]int64
 
@@ -188,6 +222,10 @@ func c03Short(d corev1.ResourceName) string {
 		return "mem"
 	case c03GPU:
 		return "gpu"
+	case c03FPGA:
+		return "fpga"
+	case c03Storage:
+		return "storage"
 	case c03Undeclared:
 		return "undeclared"
 	}
@@ -232,7 +270,8 @@ type c03Quota struct {
 	name, parent string
 	isParent     bool
 	allowLent    bool
-	isDefault    bool
+	isDefault    bool   // one of the two built-in groups (default or system): outside runtime sharing, not updatable
+	builtin      string // "default-quota" | "system-quota" | ""
 	depth        int
 	dims         []corev1.ResourceName // declared dimensions = keys of max (fixed for the case)
 	minDims      []corev1.ResourceName // keys of min (fixed for the case)
@@ -240,9 +279,17 @@ type c03Quota struct {
 	weight       c03Vec // nil: no annotation (defaults to max)
 	children     []string
 	lowered      map[corev1.ResourceName]bool // max lowered in this dimension and used not seen within max since
-	exists       bool                         // the quota object currently exists (late quotas start absent)
-	resized      bool                         // a pod of its subtree was resized in place
-	everLate     bool                         // was created after the start of the history at least once
+	everExempt   map[corev1.ResourceName]bool // lowered[d] was set at least once in this history
+	rtAboveMax   map[corev1.ResourceName]bool // the reported runtime was seen above max in this dimension
+	tree         string                       // quota tree id ("" = the default tree); MultiQuotaTree gate
+	treeRoot     bool                         // root quota of its tree: carries the tree's total resource
+	treeTotal    c03Vec
+	ignoreDefTr  bool
+	nsName       bool   // the object lives in a namespace named like itself: label-less pods of that namespace belong to it
+	annotNS      string // namespace listed in its namespaces annotation ("" = none)
+	exists       bool   // the quota object currently exists (late quotas start absent)
+	resized      bool   // a pod of its subtree was resized in place
+	everLate     bool   // was created after the start of the history at least once
 	deletions    int
 	rv           int
 	obj          *v1alpha1.ElasticQuota
@@ -265,6 +312,123 @@ type c03Pod struct {
 	rv       int
 	obj      *corev1.Pod
 	attempts int
+	// shape of the object: the request the statement speaks of is the effective pod request
+	// max(sum of containers, largest init container) + overhead (overhead not counted when the
+	// ElasticQuotaIgnorePodOverhead gate is on); req always holds that effective vector
+	containers  []c03Vec
+	inits       []c03Vec
+	overhead    c03Vec
+	via         string // how the pod names its quota: label | nsname | nsannot | none
+	gen         int    // how often the name was used before (a name may be re-used with a new UID)
+	terminating bool
+}
+
+// a constant, far from every clock: no component under check compares it with the time (default gates)
+var c03DeletionTime = metav1.NewTime(time.Unix(1700000000, 0))
+
+func (w *c03World) effective(p *c03Pod) c03Vec {
+	e := c03Vec{}
+	for _, cv := range p.containers {
+		for d, v := range cv {
+			e[d] += v
+		}
+	}
+	for _, iv := range p.inits {
+		for d, v := range iv {
+			if v > e[d] {
+				e[d] = v
+			} else if _, ok := e[d]; !ok {
+				e[d] = e[d] + 0
+			}
+		}
+	}
+	if !w.ignoreOverhead {
+		for d, v := range p.overhead {
+			e[d] += v
+		}
+	}
+	return e
+}
+
+// shape spreads the wanted effective request over containers / init containers / overhead.
+func (w *c03World) shape(p *c03Pod) {
+	r := w.r
+	t := c03Copy(p.req)
+	p.containers, p.inits, p.overhead = []c03Vec{t}, nil, nil
+	switch r.Weighted(62, 16, 11, 11) {
+	case 1: // several containers
+		n := r.Range(2, 3)
+		p.containers = make([]c03Vec, n)
+		for i := range p.containers {
+			p.containers[i] = c03Vec{}
+		}
+		for _, d := range c03Dims(t) {
+			left := t[d]
+			for i := 0; i < n-1; i++ {
+				part := r.Int63n(left + 1)
+				if part > 0 || r.Bool() {
+					p.containers[i][d] = part
+				}
+				left -= part
+			}
+			p.containers[n-1][d] = left
+		}
+		w.c.Count("pods_multi_container", 1)
+	case 2: // an init container dominates the app containers
+		app := c03Vec{}
+		for _, d := range c03Dims(t) {
+			app[d] = t[d] - r.Int63n(t[d]+1)
+		}
+		p.containers = []c03Vec{app}
+		p.inits = []c03Vec{c03Copy(t)}
+		if r.Bool() {
+			small := c03Vec{}
+			for _, d := range c03Dims(t) {
+				small[d] = t[d] / 2
+			}
+			p.inits = append(p.inits, small)
+		}
+		w.c.Count("pods_init_container_dominant", 1)
+	case 3: // pod overhead (RuntimeClass)
+		p.overhead = c03Vec{}
+		for _, d := range []corev1.ResourceName{corev1.ResourceCPU, corev1.ResourceMemory} {
+			o := int64(r.Range(1, 250))
+			if w.ignoreOverhead {
+				p.overhead[d] = o // not part of the request
+				continue
+			}
+			if v, ok := t[d]; ok && v > 0 {
+				o = c03Min64(o, v)
+				p.overhead[d] = o
+				t[d] = v - o
+			}
+		}
+		w.c.Count("pods_with_overhead", 1)
+	}
+	e := w.effective(p)
+	for _, d := range c03Dims(p.req) {
+		if e[d] != p.req[d] {
+			w.c.Harness("pod shape of %s gives effective %s, wanted %s", p.name, c03Str(e), c03Str(p.req))
+		}
+	}
+	p.req = e
+}
+
+func (w *c03World) shapeStr(p *c03Pod) string {
+	s := "containers="
+	for _, cv := range p.containers {
+		s += c03Str(cv)
+	}
+	if len(p.inits) > 0 {
+		s += " inits="
+		for _, iv := range p.inits {
+			s += c03Str(iv)
+		}
+	}
+	if p.overhead != nil {
+		s += " overhead=" + c03Str(p.overhead)
+	}
+	return s
 }
 
 type c03Node struct {
@@ -275,22 +439,30 @@ type c03Node struct {
 }
 
 type c03World struct {
-	c         *kit.Case
-	r         *kit.Rand
-	pl        *Plugin
-	runtimeOn bool
-	parentOn  bool
-	quotas    map[string]*c03Quota
-	order     []string // parents before children; default group last
-	leaves    []string // leaf groups that take pods (without the default group)
-	pods      []*c03Pod
-	nextPod   int
-	nodes     []*c03Node
-	nextNode  int
-	memScale  int64
-	defSmall  bool
-	lateMode  bool     // history with late-created / deleted / re-created quotas
-	absent    []string // names of planned or deleted leaf quotas that do not exist right now
+	c              *kit.Case
+	r              *kit.Rand
+	pl             *Plugin
+	runtimeOn      bool
+	parentOn       bool
+	quotas         map[string]*c03Quota
+	order          []string // parents before children; default group last
+	leaves         []string // leaf groups that take pods (without the default group)
+	pods           []*c03Pod
+	nextPod        int
+	nodes          []*c03Node
+	nextNode       int
+	memScale       int64
+	defSmall       bool
+	sysSmall       bool
+	ignoreOverhead bool // ElasticQuotaIgnorePodOverhead gate is on in this case
+	multiTree      bool // MultiQuotaTree gate is on in this case
+	guarantee      bool // ElasticQuotaGuaranteeUsage gate is on in this case
+	wideAmounts    bool // zero / one-unit / milli / 64-bit-scale amounts are mixed in
+	subsetDims     bool // children may declare a subset of their parent's dimensions (ElasticQuotaEnableUpdateResourceKey)
+	maxDepth       int
+	podCap         int
+	lateMode       bool     // history with late-created / deleted / re-created quotas
+	absent         []string // names of planned or deleted leaf quotas that do not exist right now
 	// the default group's over-max state is reported once per case
 	defReported bool
 	accepted    int
@@ -301,9 +473,15 @@ type c03World struct {
 var c03DimSets = [][]corev1.ResourceName{
 	{corev1.ResourceCPU, corev1.ResourceMemory},
 	{corev1.ResourceCPU, corev1.ResourceMemory},
+	{corev1.ResourceCPU, corev1.ResourceMemory},
+	{corev1.ResourceCPU, corev1.ResourceMemory, c03GPU},
 	{corev1.ResourceCPU, corev1.ResourceMemory, c03GPU},
 	{corev1.ResourceCPU},
 	{corev1.ResourceCPU, c03GPU},
+	{corev1.ResourceMemory},
+	{c03GPU},
+	{corev1.ResourceCPU, corev1.ResourceMemory, c03Storage, c03GPU},
+	{corev1.ResourceCPU, corev1.ResourceMemory, c03GPU, c03FPGA, c03Storage},
 }
 
 func (w *c03World) genAmount(d corev1.ResourceName) int64 {
@@ -312,12 +490,34 @@ func (w *c03World) genAmount(d corev1.ResourceName) int64 {
 	switch d {
 	case corev1.ResourceCPU:
 		v = 500 * int64(r.Range(2, 32))
-	case corev1.ResourceMemory:
+	case corev1.ResourceMemory, c03Storage:
 		v = w.memScale * int64(r.Range(2, 48))
 	default:
 		v = int64(r.Range(1, 8))
 	}
-	if d != c03GPU && r.Pct(12) {
+	if w.wideAmounts && r.Pct(18) {
+		// rare magnitudes: nothing at all, one base unit, sub-core milli amounts, 64-bit scale
+		switch r.Intn(4) {
+		case 0:
+			return 0
+		case 1:
+			return 1
+		case 2:
+			if d == corev1.ResourceCPU {
+				return int64(r.Range(1, 999))
+			}
+			return int64(r.Range(1, 3))
+		default:
+			if c03Countable(d) {
+				return int64(r.Range(64, 4096))
+			}
+			if d == corev1.ResourceCPU {
+				return (int64(1) << 38) + int64(r.Range(-1, 1))
+			}
+			return (int64(1) << 50) + int64(r.Range(-1, 1))
+		}
+	}
+	if !c03Countable(d) && r.Pct(12) {
 		if r.Bool() {
 			v++
 		} else {
@@ -332,8 +532,20 @@ func (w *c03World) genTree() {
 	r := w.r
 	budget := r.Range(3, 6)
 	nTop := r.Range(1, 3)
+	switch r.Weighted(72, 18, 10) {
+	case 1: // large
+		budget = r.Range(7, 12)
+		nTop = r.Range(1, 5)
+	case 2: // tiny
+		budget = r.Range(1, 2)
+		nTop = 1
+	}
 	if nTop > budget {
 		nTop = budget
+	}
+	w.maxDepth = []int{3, 3, 3, 3, 3, 3, 3, 2, 4, 4, 5, 5, 6, 6}[r.Intn(14)]
+	if w.maxDepth > 3 && budget < w.maxDepth+1 {
+		budget = w.maxDepth + r.Range(1, 4) // room for one chain of that depth and some siblings
 	}
 	var all []*c03Quota
 	newQ := func(parent *c03Quota) *c03Quota {
@@ -351,6 +563,26 @@ func (w *c03World) genTree() {
 			q.depth = parent.depth + 1
 			q.dims = parent.dims
 			q.minDims = parent.minDims
+			if w.subsetDims && len(parent.dims) > 1 && r.Pct(45) {
+				// the webhook (with ElasticQuotaEnableUpdateResourceKey) only asks for child keys within the parent's
+				var ds []corev1.ResourceName
+				for _, d := range parent.dims {
+					if r.Pct(60) {
+						ds = append(ds, d)
+					}
+				}
+				if len(ds) == 0 {
+					ds = []corev1.ResourceName{kit.Pick(r, parent.dims)}
+				}
+				q.dims = ds
+				var ms []corev1.ResourceName
+				for _, d := range parent.minDims {
+					if c03Has(ds, d) {
+						ms = append(ms, d)
+					}
+				}
+				q.minDims = ms
+			}
 			parent.children = append(parent.children, q.name)
 		}
 		all = append(all, q)
@@ -359,12 +591,12 @@ func (w *c03World) genTree() {
 	}
 	for i := 0; i < nTop; i++ {
 		q := newQ(nil)
-		q.isParent = r.Pct(65)
+		q.isParent = r.Pct(65) || w.maxDepth > 3 && i == 0
 	}
 	for budget > 0 {
 		var cands []*c03Quota
 		for _, q := range all {
-			if q.isParent && q.depth < 3 {
+			if q.isParent && q.depth < w.maxDepth {
 				cands = append(cands, q)
 			}
 		}
@@ -374,8 +606,15 @@ func (w *c03World) genTree() {
 			continue
 		}
 		p := kit.Pick(r, cands)
+		if w.maxDepth > 3 && r.Pct(70) {
+			for _, cand := range cands { // grow the deepest chain first
+				if cand.depth > p.depth {
+					p = cand
+				}
+			}
+		}
 		q := newQ(p)
-		q.isParent = q.depth < 3 && budget > 0 && r.Pct(30)
+		q.isParent = q.depth < w.maxDepth && budget > 0 && r.Pct(30+20*(w.maxDepth-3))
 	}
 	for _, q := range all {
 		if q.isParent && len(q.children) == 0 {
@@ -429,6 +668,14 @@ func (w *c03World) genTree() {
 				q.weight[d] = int64(r.Range(0, 5))
 			}
 		}
+		if !q.isParent {
+			switch r.Intn(6) {
+			case 0:
+				q.nsName = true
+			case 1:
+				q.annotNS = "team-" + q.name
+			}
+		}
 		w.quotas[q.name] = q
 		w.order = append(w.order, q.name)
 		if !q.isParent {
@@ -442,7 +689,7 @@ func (w *c03World) quotaObj(q *c03Quota) *v1alpha1.ElasticQuota {
 	eq := &v1alpha1.ElasticQuota{
 		ObjectMeta: metav1.ObjectMeta{
 			Name:            q.name,
-			Namespace:       "c03",
+			Namespace:       map[bool]string{true: q.name, false: "c03"}[q.nsName],
 			ResourceVersion: fmt.Sprint(q.rv),
 			Labels: map[string]string{
 				extension.LabelQuotaParent:       q.parent,
@@ -457,11 +704,67 @@ func (w *c03World) quotaObj(q *c03Quota) *v1alpha1.ElasticQuota {
 		b, _ := json.Marshal(c03RL(q.weight))
 		eq.Annotations[extension.AnnotationSharedWeight] = string(b)
 	}
+	if q.tree != "" {
+		eq.Labels[extension.LabelQuotaTreeID] = q.tree
+		if q.treeRoot {
+			eq.Labels[extension.LabelQuotaIsRoot] = "true"
+			eq.Labels[extension.LabelQuotaIgnoreDefaultTree] = fmt.Sprint(q.ignoreDefTr)
+			b, _ := json.Marshal(c03RL(q.treeTotal))
+			eq.Annotations[extension.AnnotationTotalResource] = string(b)
+		}
+	}
+	if q.annotNS != "" {
+		b, _ := json.Marshal([]string{q.annotNS})
+		eq.Annotations[extension.AnnotationQuotaNamespaces] = string(b)
+	}
 	return eq
 }
 
+// deliverQuota does what the quota informer does: its store (which the plugin's lister and namespace
+// index read) is updated first, then the plugin's handler is called.
+func (w *c03World) deliverQuota(kind string, old, cur *v1alpha1.ElasticQuota) {
+	ix := w.pl.quotaInformer.GetIndexer()
+	var err error
+	switch kind {
+	case "add":
+		err = ix.Add(cur)
+		w.pl.OnQuotaAdd(cur)
+	case "update":
+		err = ix.Update(cur)
+		w.pl.OnQuotaUpdate(old, cur)
+	case "delete":
+		err = ix.Delete(cur)
+		w.pl.OnQuotaDelete(cur)
+	}
+	if err != nil {
+		w.c.Harness("quota informer store %s: %v", kind, err)
+	}
+}
+
+func (w *c03World) genTreeTotal(q *c03Quota) c03Vec {
+	t := c03Vec{}
+	for _, d := range q.dims {
+		v := q.max[d] / 100 * kit.Pick(w.r, c03Factors)
+		if q.max[d] < 1<<40 {
+			v = q.max[d] * kit.Pick(w.r, c03Factors) / 100
+		}
+		if v > 0 || w.r.Pct(70) {
+			t[d] = v
+		}
+	}
+	return t
+}
+
 func (w *c03World) quotaDesc(q *c03Quota) string {
-	return fmt.Sprintf("%s parent=%s isParent=%v lent=%v max=%s min=%s weight=%s", q.name, q.parent, q.isParent, q.allowLent, c03Str(q.max), c03Str(q.min), c03Str(q.weight))
+	return fmt.Sprintf("%s parent=%s isParent=%v lent=%v max=%s min=%s weight=%s nsName=%v annotNS=%q tree=%q total=%s", q.name, q.parent, q.isParent, q.allowLent, c03Str(q.max), c03Str(q.min), c03Str(q.weight), q.nsName, q.annotNS, q.tree, c03Str(q.treeTotal))
+}
+
+func (q *c03Quota) exempt(d corev1.ResourceName) {
+	q.lowered[d] = true
+	if q.everExempt == nil {
+		q.everExempt = map[corev1.ResourceName]bool{}
+	}
+	q.everExempt[d] = true
 }
 
 // chain returns the group and its ancestors below the root, leaf first.
@@ -606,12 +909,27 @@ func (w *c03World) checkAll(where string) {
 			}
 			sig := "C03/invariant/used-above-max"
 			fail := c.Fail
+			if w.guarantee && !q.isDefault {
+				// With ElasticQuotaGuaranteeUsage the runtime quota is deliberately raised to the guaranteed
+				// amount and may lie above max; "limit <= max", from which the refined reading (not lowered
+				// since usage was last within max) follows, does not hold then. Only the literal clause is
+				// asserted: a quota whose max was never lowered (nor usage brought in past admission) in the
+				// whole history, and whose reported runtime was never seen above max.
+				if q.everExempt[d] {
+					c.Count("converse_misses_used_above_lowered_max_under_guarantee_gate", 1)
+					continue
+				}
+				if q.rtAboveMax[d] {
+					c.Count("converse_misses_used_above_max_runtime_above_max_under_guarantee_gate", 1)
+					continue
+				}
+			}
 			if q.isDefault {
 				if w.defReported {
 					continue
 				}
 				w.defReported = true
-				sig += "/default-quota"
+				sig += "/" + q.builtin
 				fail = c.Report
 			}
 			fail(sig, "%s: group %s (isParent=%v) shows used %s=%d above max %d although its max was not lowered since usage was last within it (runtimeQuota=%v checkParent=%v)", where, n, q.isParent, c03Short(d), used[n][d], q.max[d], w.runtimeOn, w.parentOn)
@@ -625,18 +943,51 @@ func (w *c03World) checkAll(where string) {
 
 func (w *c03World) podObj(p *c03Pod, nodeName string) *corev1.Pod {
 	p.rv++
-	labels := map[string]string{extension.LabelQuotaName: p.label}
+	labels := map[string]string{"app": "c03"}
+	ns := "c03"
+	switch p.via {
+	case "nsname": // no label: the quota named like the pod's namespace (and living in it)
+		ns = p.label
+	case "nsannot": // no label: the quota whose namespaces annotation lists the pod's namespace
+		ns = w.quotas[p.label].annotNS
+	case "none": // no label, no quota for the namespace: default group
+	default:
+		labels[extension.LabelQuotaName] = p.label
+	}
 	if p.np {
 		labels[extension.LabelPreemptible] = "false"
 	}
-	return &corev1.Pod{
-		ObjectMeta: metav1.ObjectMeta{Name: p.name, Namespace: "c03", UID: types.UID("uid-" + p.name), ResourceVersion: fmt.Sprint(p.rv), Labels: labels},
-		Spec: corev1.PodSpec{
-			NodeName:   nodeName,
-			Containers: []corev1.Container{{Name: "main", Resources: corev1.ResourceRequirements{Requests: c03RL(p.req)}}},
-		},
-		Status: corev1.PodStatus{Phase: corev1.PodPending},
+	pod := &corev1.Pod{
+		ObjectMeta: metav1.ObjectMeta{Name: p.name, Namespace: ns, UID: types.UID(fmt.Sprintf("uid-%s-%d", p.name, p.gen)), ResourceVersion: fmt.Sprintf("%d", 1000*p.gen+p.rv), Labels: labels},
+		Spec:       corev1.PodSpec{NodeName: nodeName},
+		Status:     corev1.PodStatus{Phase: corev1.PodPending},
 	}
+	for i, cv := range p.containers {
+		pod.Spec.Containers = append(pod.Spec.Containers, corev1.Container{Name: fmt.Sprintf("c%d", i), Resources: corev1.ResourceRequirements{Requests: c03RL(cv)}})
+	}
+	for i, iv := range p.inits {
+		pod.Spec.InitContainers = append(pod.Spec.InitContainers, corev1.Container{Name: fmt.Sprintf("i%d", i), Resources: corev1.ResourceRequirements{Requests: c03RL(iv)}})
+	}
+	if p.overhead != nil {
+		pod.Spec.Overhead = c03RL(p.overhead)
+	}
+	if p.terminating {
+		t := c03DeletionTime
+		grace := int64(30)
+		pod.DeletionTimestamp, pod.DeletionGracePeriodSeconds = &t, &grace
+	}
+	return pod
+}
+
+// schedulable: waiting pods the scheduler would still try (it skips pods that are being deleted)
+func (w *c03World) schedulable() []*c03Pod {
+	var out []*c03Pod
+	for _, p := range w.pods {
+		if p.state == c03Pending && !p.terminating {
+			out = append(out, p)
+		}
+	}
+	return out
 }
 
 func (w *c03World) live() []*c03Pod {
@@ -701,8 +1052,24 @@ func (w *c03World) newPod() *c03Pod { return w.newPodFor("") }
 // newPodFor adds a pod; forced != "" names the (existing) quota it is labelled with.
 func (w *c03World) newPodFor(forced string) *c03Pod {
 	r := w.r
-	p := &c03Pod{name: fmt.Sprintf("p%d", w.nextPod), req: c03Vec{}, state: c03Pending}
+	p := &c03Pod{name: fmt.Sprintf("p%d", w.nextPod), req: c03Vec{}, state: c03Pending, via: "label"}
 	w.nextPod++
+	if r.Pct(10) {
+		// a name that a deleted pod carried is used again (new UID), as a StatefulSet does
+		taken := map[string]bool{}
+		for _, o := range w.pods {
+			if o.state != c03Gone {
+				taken[o.name] = true
+			}
+		}
+		for _, o := range w.pods {
+			if o.state == c03Gone && !taken[o.name] {
+				p.name, p.gen = o.name, o.gen+1
+				w.c.Count("pod_name_reused", 1)
+				break
+			}
+		}
+	}
 	defPct := 6
 	if w.defSmall {
 		defPct = 25
@@ -716,7 +1083,9 @@ func (w *c03World) newPodFor(forced string) *c03Pod {
 		p.quota = extension.DefaultQuotaName
 		future = w.quotas[p.label]
 		w.c.Count("pods_labelled_with_absent_quota", 1)
-	} else if r.Pct(defPct) {
+	} else if w.sysSmall && r.Pct(12) || r.Pct(2) {
+		p.quota, p.label = extension.SystemQuotaName, extension.SystemQuotaName
+	} else if r.Pct(defPct) || len(w.leaves) == 0 {
 		p.quota = extension.DefaultQuotaName
 		p.label = extension.DefaultQuotaName
 		if r.Bool() {
@@ -736,7 +1105,7 @@ func (w *c03World) newPodFor(forced string) *c03Pod {
 		if r.Pct(25) {
 			m = r.Weighted(28, 22, 10, 25, 10, 5) // mix modes across dimensions
 		}
-		if leaf.isDefault && !w.defSmall {
+		if leaf.builtin == "default-quota" && !w.defSmall || leaf.builtin == "system-quota" && !w.sysSmall {
 			m = 3
 		}
 		switch m {
@@ -779,17 +1148,37 @@ func (w *c03World) newPodFor(forced string) *c03Pod {
 	}
 	if r.Pct(25) {
 		// a dimension the group does not declare must not count
-		for _, d := range []corev1.ResourceName{corev1.ResourceMemory, c03GPU, c03Undeclared} {
+		for _, d := range []corev1.ResourceName{corev1.ResourceMemory, c03GPU, c03Storage, c03Undeclared} {
 			if !c03Has(leaf.dims, d) && (future == nil || !c03Has(future.dims, d)) && r.Bool() {
 				p.req[d] = w.genAmount(d)
 			}
 		}
 	}
+	// how the pod names its quota
+	if t := w.quotas[p.label]; t != nil && !t.isDefault {
+		switch {
+		case t.nsName && r.Pct(50):
+			p.via = "nsname"
+		case t.annotNS != "" && r.Pct(50):
+			p.via = "nsannot"
+		}
+	} else if p.label == "no-such-quota" && r.Bool() {
+		p.via = "none"
+	}
+	if p.via != "label" {
+		w.c.Count("pods_without_quota_label_"+p.via, 1)
+	}
+	w.shape(p)
 	w.pods = append(w.pods, p)
 	p.obj = w.podObj(p, "")
 	w.pl.OnPodAdd(p.obj)
-	w.c.Op("pod-add %s label=%s group=%s nonPreemptible=%v req=%s", p.name, p.label, p.quota, p.np, c03Str(p.req))
+	w.c.Op("pod-add %s(gen %d) via=%s quota=%s group=%s nonPreemptible=%v req=%s %s", p.name, p.gen, p.via, p.label, p.quota, p.np, c03Str(p.req), w.shapeStr(p))
 	w.c.Count("op_pod_add", 1)
+	if r.Pct(5) {
+		w.pl.OnPodAdd(p.obj) // the add event delivered twice
+		w.c.Op("pod-add %s again (duplicate event)", p.name)
+		w.c.Count("op_pod_add_duplicate", 1)
+	}
 	return p
 }
 
@@ -830,18 +1219,26 @@ func (w *c03World) resize(p *c03Pod) {
 		if nv < 0 {
 			nv = 0
 		}
-		if nv > cur {
-			grew = true
-			for _, g := range chain {
-				g.lowered[d] = true // growth that no admission check has seen; cleared when within max
-			}
-		} else if nv < cur {
-			shrank = true
+		// only container resources can be resized: the first container takes the difference
+		c0 := p.containers[0][d] + nv - cur
+		if c0 < 0 {
+			c0 = 0
 		}
-		p.req[d] = nv
+		p.containers[0][d] = c0
 	}
 	if r.Pct(15) {
-		p.req[c03Undeclared] = w.genAmount(c03Undeclared) // must not count anywhere
+		p.containers[0][c03Undeclared] = w.genAmount(c03Undeclared) // must not count anywhere
+	}
+	p.req = w.effective(p)
+	for _, d := range leaf.dims {
+		if p.req[d] > oldReq[d] {
+			grew = true
+			for _, g := range chain {
+				g.exempt(d) // growth that no admission check has seen; cleared when within max
+			}
+		} else if p.req[d] < oldReq[d] {
+			shrank = true
+		}
 	}
 	old := p.obj
 	node := ""
@@ -853,7 +1250,7 @@ func (w *c03World) resize(p *c03Pod) {
 	for _, g := range chain {
 		g.resized = true
 	}
-	c.Op("pod-resize %s (state=%d group=%s) req %s -> %s", p.name, p.state, p.quota, c03Str(oldReq), c03Str(p.req))
+	c.Op("pod-resize %s (state=%d group=%s) req %s -> %s %s", p.name, p.state, p.quota, c03Str(oldReq), c03Str(p.req), w.shapeStr(p))
 	c.Count("op_pod_resize", 1)
 	if grew {
 		c.Count("op_pod_resize_grow", 1)
@@ -888,7 +1285,13 @@ type c03Fail struct {
 	group  string
 	dim    corev1.ResourceName
 	strict bool // the pod requests a positive amount in this dimension
-	text   string
+	// the comparison holds against the reported runtime but fails against max (reported runtime above
+	// max, only seen with the ElasticQuotaGuaranteeUsage gate): the statement names the runtime as the
+	// limit and in the same breath concludes used <= max, so it does not decide this admission. Such an
+	// entry justifies a rejection, it never makes an admission a violation (the used<=max invariant
+	// speaks for that case).
+	onlyMax bool
+	text    string
 }
 
 func (w *c03World) evaluate(p *c03Pod, views []c03View) (fails []c03Fail, exact, oneOver, scarce bool) {
@@ -923,12 +1326,19 @@ func (w *c03World) evaluate(p *c03Pod, views []c03View) (fails []c03Fail, exact,
 			if u+req > lim {
 				fails = append(fails, c03Fail{kind: kind, group: v.q.name, dim: d, strict: req > 0,
 					text: fmt.Sprintf("%s group %s: used %d + request %d > limit %d in %s", kind, v.q.name, u, req, lim, c03Short(d))})
+			} else if u+req > v.q.max[d] {
+				fails = append(fails, c03Fail{kind: kind, group: v.q.name, dim: d, strict: req > 0, onlyMax: true,
+					text: fmt.Sprintf("%s group %s: used %d + request %d > max %d (reported runtime %d) in %s", kind, v.q.name, u, req, v.q.max[d], lim, c03Short(d))})
 			}
 			if req > 0 {
 				mark(kind, u+req, lim)
 			}
 			if lim > v.q.max[d] {
 				c.Count("limit_above_max", 1)
+				if v.q.rtAboveMax == nil {
+					v.q.rtAboveMax = map[corev1.ResourceName]bool{}
+				}
+				v.q.rtAboveMax[d] = true
 			}
 		}
 	}
@@ -1029,6 +1439,10 @@ func (w *c03World) attempt(p *c03Pod) {
 			// strict failures first: they end the case (except in the default group, see below)
 			sort.SliceStable(fails, func(i, j int) bool { return fails[i].strict && !fails[j].strict })
 			for _, f := range fails {
+				if f.onlyMax {
+					c.Count("admitted_within_reported_runtime_above_max", 1)
+					continue
+				}
 				sig := map[string]string{"own": "C03/admit/over-own-limit", "ancestor": "C03/admit/over-ancestor-limit", "np": "C03/admit/non-preemptible-over-min"}[f.kind]
 				fail := c.Fail
 				if !f.strict {
@@ -1050,7 +1464,7 @@ func (w *c03World) attempt(p *c03Pod) {
 				if leaf.isDefault {
 					// narrow signature of its own, and the case goes on, so that a finding in the default
 					// group does not switch off the monitoring of all other groups
-					sig = "C03/admit/over-own-limit/default-quota"
+					sig = "C03/admit/over-own-limit/" + leaf.builtin
 					fail = c.Report
 				}
 				fail(sig, "pod %s (request %s, nonPreemptible=%v) was admitted to group %s although %s (runtimeQuota=%v checkParent=%v); state at the check (usage read before it, limit read right after it): %s",
@@ -1112,7 +1526,10 @@ func (w *c03World) attempt(p *c03Pod) {
 		} else if oneOver {
 			bclass = "one-over"
 		}
-		c.Seen(w.runtimeOn, w.parentOn, leaf.depth, len(leaf.dims), leaf.isDefault, leaf.everLate, p.np, admitted, reason, bclass, scarce, p.attempts > 1)
+		if leaf.tree != "" {
+			c.Count("attempts_in_separate_quota_tree", 1)
+		}
+		c.Seen(w.runtimeOn, w.parentOn, leaf.depth, len(leaf.dims), leaf.isDefault, leaf.tree != "", leaf.everLate, p.np, admitted, reason, bclass, scarce, p.attempts > 1)
 	}
 	if !admitted {
 		if r.Pct(20) {
@@ -1207,9 +1624,9 @@ func (w *c03World) lateCreate(q *c03Quota) {
 	live, assigned := w.labelled(q.name)
 	q.exists, q.everLate = true, true
 	q.obj = w.quotaObj(q)
-	w.pl.OnQuotaAdd(q.obj)
+	w.deliverQuota("add", nil, q.obj)
 	// parents precede children, the default group stays last
-	w.order = append(w.order[:len(w.order)-1], q.name, extension.DefaultQuotaName)
+	w.order = append(w.order[:len(w.order)-2], q.name, extension.DefaultQuotaName, extension.SystemQuotaName)
 	w.leaves = append(w.leaves, q.name)
 	w.absent = c03Remove(w.absent, q.name)
 	c.Op("quota-add-late %s (deleted %d times before; %d live pods carry its name, %d of them assigned)", w.quotaDesc(q), q.deletions, live, assigned)
@@ -1231,7 +1648,7 @@ func (w *c03World) lateCreate(q *c03Quota) {
 		case 1:
 			w.nodeChange()
 		default:
-			if len(w.live()) < 16 {
+			if len(w.live()) < w.podCap+2 {
 				np := w.newPodFor(q.name) // arrives after the quota: accounted there directly
 				c.Count("pod_added_between_late_creation_and_migration", 1)
 				_ = np
@@ -1242,7 +1659,7 @@ func (w *c03World) lateCreate(q *c03Quota) {
 	// usage that arrives by migration was never admitted against this quota or its ancestors
 	for _, g := range w.chain(q.name) {
 		for _, d := range g.dims {
-			g.lowered[d] = true
+			g.exempt(d)
 		}
 	}
 	w.pl.migrateDefaultQuotaGroupsPod()
@@ -1281,7 +1698,7 @@ func (w *c03World) deleteQuota() bool {
 	var cands []*c03Quota
 	for _, n := range w.leaves {
 		q := w.quotas[n]
-		if live, _ := w.labelled(n); live == 0 && len(w.leaves) >= 2 {
+		if live, _ := w.labelled(n); live == 0 && len(w.leaves) >= 2 && q.tree == "" {
 			cands = append(cands, q)
 		}
 	}
@@ -1289,7 +1706,7 @@ func (w *c03World) deleteQuota() bool {
 		return false
 	}
 	q := kit.Pick(r, cands)
-	w.pl.OnQuotaDelete(q.obj)
+	w.deliverQuota("delete", nil, q.obj)
 	q.exists = false
 	q.deletions++
 	w.order = c03Remove(w.order, q.name)
@@ -1309,11 +1726,17 @@ func (w *c03World) quotaUpdate() {
 			names = append(names, n)
 		}
 	}
+	if len(names) == 0 {
+		return
+	}
 	q := w.quotas[kit.Pick(r, names)]
 	used, np := w.shadow()
 	old := q.obj
 	kind := r.Weighted(25, 30, 25, 12, 8, 8, 4)
 	what := ""
+	if q.treeRoot && r.Pct(25) {
+		kind = 7
+	}
 	if kind == 6 {
 		// is-parent may only change on a quota without child quotas (planned ones count) and without pods
 		live, _ := w.labelled(q.name)
@@ -1335,6 +1758,9 @@ func (w *c03World) quotaUpdate() {
 		}
 	}
 	switch kind {
+	case 7: // the capacity of a quota tree changes (the multi-tree counterpart of a node change)
+		q.treeTotal = w.genTreeTotal(q)
+		what = "tree-total " + c03Str(q.treeTotal)
 	case 5: // meta change that is no parent change: UpdateQuota rebuilds the whole tree
 		q.allowLent = !q.allowLent
 		what = fmt.Sprintf("lent-flip ->%v", q.allowLent)
@@ -1374,7 +1800,7 @@ func (w *c03World) quotaUpdate() {
 		}
 		nv = c03Max64(nv, floor)
 		if nv < oldMax {
-			q.lowered[d] = true
+			q.exempt(d)
 		}
 		q.max[d] = nv
 		what += fmt.Sprintf(" %s %d->%d", c03Short(d), oldMax, nv)
@@ -1427,7 +1853,7 @@ func (w *c03World) quotaUpdate() {
 		what = "no-change"
 	}
 	q.obj = w.quotaObj(q)
-	w.pl.OnQuotaUpdate(old, q.obj)
+	w.deliverQuota("update", old, q.obj)
 	c.Op("quota-update %s: %s", what, w.quotaDesc(q))
 	c.Count("op_quota_"+strings.Fields(what)[0], 1)
 }
@@ -1440,7 +1866,7 @@ func (w *c03World) nodeObj(n *c03Node) *corev1.Node {
 func (w *c03World) genNodeAlloc(factorPct int64, share int64) c03Vec {
 	// share of (sum of top-level max) * factor, per dimension
 	a := c03Vec{}
-	for _, d := range []corev1.ResourceName{corev1.ResourceCPU, corev1.ResourceMemory, c03GPU} {
+	for _, d := range c03AllDims {
 		var sum int64
 		for _, n := range w.order {
 			q := w.quotas[n]
@@ -1448,11 +1874,14 @@ func (w *c03World) genNodeAlloc(factorPct int64, share int64) c03Vec {
 				sum += q.max[d]
 			}
 		}
-		v := sum * factorPct / 100 / share
-		if d == corev1.ResourceCPU {
+		v := sum / share / 100 * factorPct
+		if sum < 1<<40 {
+			v = sum * factorPct / 100 / share
+		}
+		if d == corev1.ResourceCPU && v >= 500 {
 			v = v / 500 * 500
 		}
-		if d != c03GPU && w.r.Pct(10) {
+		if !c03Countable(d) && w.r.Pct(10) {
 			v++
 		}
 		if v > 0 || w.r.Pct(70) {
@@ -1468,7 +1897,7 @@ func (w *c03World) nodeChange() {
 	c, r := w.c, w.r
 	kind := r.Weighted(30, 25, 45)
 	switch {
-	case kind == 0 && len(w.nodes) < 3 || len(w.nodes) == 0:
+	case kind == 0 && len(w.nodes) < 6 || len(w.nodes) == 0:
 		n := &c03Node{name: fmt.Sprintf("node%d", w.nextNode), alloc: w.genNodeAlloc(kit.Pick(r, c03Factors), int64(r.Range(1, 3)))}
 		w.nextNode++
 		n.obj = w.nodeObj(n)
@@ -1531,8 +1960,8 @@ func (s *c03Suit) newPlugin(t *testing.T, c *kit.Case, mut func(a *config.Elasti
 
 func TestVerifC03Admission(t *testing.T) {
 	s := &c03Suit{}
-	kit.Run(t, kit.Config{Property: "C03", Unit: "admission", Quick: 1600, Thorough: 48000,
-		Rule: "case k runs configuration k%4 of EnableRuntimeQuota x EnableCheckParentQuota on a fresh real Plugin: random webhook-valid quota tree (3-6 groups, depth<=3, per-subtree dimension sets, lent/non-lent, weights) plus the default group, 1-3 nodes sized 0.3x-3x of the top-level max sum; closed loop of 50-150 scheduling attempts (PreFilter -> Reserve -> sometimes Unreserve, retries of rejected pods) interleaved with pod deletions, bind echoes, stale updates, (in 35% of the histories) leaf quotas created late over pods that were admitted/bound/left pending through the default group + the plugin's migrateDefaultQuotaGroupsPod + further attempts against the new quota + deletion/re-creation of empty leaf quotas, in-place resizes of assigned pods through the plugin's pod update handler, max raised/lowered (also exactly to usage and one below), min and weight changes, allow-lent and is-parent flips (tree rebuild), node add/remove/resize, events between check and reserve; requests drawn at headroom, headroom+1, headroom-1; distinct = (config, leaf depth, #dims, default group?, late-created quota?, non-preemptible?, verdict, cited check, boundary class, limit<max?, retry?); non-trivial = case with an accepted and a rejected attempt and at least one decision within one unit of a limit"},
+	kit.Run(t, kit.Config{Property: "C03", Unit: "admission", Quick: 1200, Thorough: 36000,
+		Rule: "case k runs configuration k%4 of EnableRuntimeQuota x EnableCheckParentQuota on a fresh real Plugin: random webhook-valid quota tree (mostly 3-6, also 1-2 and 7-12 groups, depth mostly <=3, up to 6; per-subtree dimension sets of 1-5 dimensions out of cpu/memory/ephemeral-storage/two extended resources, children optionally declaring a subset; lent/non-lent, weights; amounts on a 500m/Mi/Gi grid +-1, in 20% of the cases also 0, 1, sub-core milli and 2^38..2^50; optionally quota trees of their own with MultiQuotaTree) plus the default and the system group (finite max in 30% / 20% of the cases), 0-6 nodes sized 0.3x-3x of the top-level max sum, gates ElasticQuotaIgnorePodOverhead / ElasticQuotaGuaranteeUsage / MultiQuotaTree on in 12% of the cases each; pods with 1-3 containers, dominant init containers, overhead, quota named by label, by namespace name, by namespaces annotation or not at all, names re-used after deletion, duplicate add events, terminating pods; 5-30, mostly 50-150, rarely 300-450 attempts, 6/14/30 live pods; closed loop of 50-150 scheduling attempts (PreFilter -> Reserve -> sometimes Unreserve, retries of rejected pods) interleaved with pod deletions, bind echoes, stale updates, (in 35% of the histories) leaf quotas created late over pods that were admitted/bound/left pending through the default group + the plugin's migrateDefaultQuotaGroupsPod + further attempts against the new quota + deletion/re-creation of empty leaf quotas, in-place resizes of assigned pods through the plugin's pod update handler, max raised/lowered (also exactly to usage and one below), min and weight changes, allow-lent and is-parent flips (tree rebuild), node add/remove/resize, events between check and reserve; requests drawn at headroom, headroom+1, headroom-1; distinct = (config, leaf depth, #dims, default group?, late-created quota?, non-preemptible?, verdict, cited check, boundary class, limit<max?, retry?); non-trivial = case with an accepted and a rejected attempt and at least one decision within one unit of a limit"},
 		func(c *kit.Case) {
 			r := c.R
 			w := &c03World{c: c, r: r, quotas: map[string]*c03Quota{}}
@@ -1541,14 +1970,55 @@ func TestVerifC03Admission(t *testing.T) {
 			w.parentOn = cfg&2 != 0
 			w.memScale = kit.Pick(r, []int64{1, 1 << 20, 1 << 30})
 			w.defSmall = r.Pct(30)
+			w.sysSmall = r.Pct(20)
+			w.wideAmounts = r.Pct(20)
+			w.subsetDims = r.Pct(12)
+			w.podCap = []int{14, 14, 14, 14, 14, 14, 14, 6, 30, 30}[r.Intn(10)]
 			minScale := !r.Pct(25)
 			w.lateMode = r.Pct(35)
+			// feature gates are process globals: set for this case, restored when it ends (also on a violation)
+			w.ignoreOverhead = r.Pct(12)
+			w.multiTree = r.Pct(12)
+			w.guarantee = r.Pct(12)
+			guarantee := w.guarantee
+			gates := map[string]bool{string(koordfeatures.ElasticQuotaIgnorePodOverhead): w.ignoreOverhead, string(koordfeatures.ElasticQuotaGuaranteeUsage): guarantee,
+				string(koordfeatures.MultiQuotaTree): w.multiTree}
+			if err := k8sfeature.DefaultMutableFeatureGate.SetFromMap(gates); err != nil {
+				c.Harness("feature gates: %v", err)
+			}
+			defer func() {
+				_ = k8sfeature.DefaultMutableFeatureGate.SetFromMap(map[string]bool{string(koordfeatures.ElasticQuotaIgnorePodOverhead): false, string(koordfeatures.ElasticQuotaGuaranteeUsage): false, string(koordfeatures.MultiQuotaTree): false})
+			}()
+			if w.ignoreOverhead {
+				c.Count("cases_gate_ignore_pod_overhead", 1)
+			}
+			if guarantee {
+				c.Count("cases_gate_guarantee_usage", 1)
+			}
 			w.genTree()
+			if w.multiTree {
+				// some top-level quotas are roots of quota trees of their own (own manager, own total resource)
+				c.Count("cases_multi_tree", 1)
+				n := 0
+				for _, name := range w.order {
+					q := w.quotas[name]
+					if q.depth == 1 && (r.Bool() || n == 0) {
+						n++
+						q.tree, q.treeRoot, q.ignoreDefTr = "tree-"+q.name, true, r.Bool()
+						q.treeTotal = w.genTreeTotal(q)
+					} else if q.depth > 1 {
+						q.tree = w.quotas[q.parent].tree
+					}
+				}
+			}
 			if w.lateMode {
 				// 1-2 leaf quotas of the planned tree do not exist at the start (at least one leaf does)
 				n := r.Range(1, 2)
 				for i := 0; i < n && len(w.leaves) >= 2; i++ {
 					name := kit.Pick(r, w.leaves)
+					if w.quotas[name].tree != "" {
+						continue // late quotas stay in the default tree (see header)
+					}
 					w.quotas[name].exists = false
 					w.order = c03Remove(w.order, name)
 					w.leaves = c03Remove(w.leaves, name)
@@ -1556,32 +2026,70 @@ func TestVerifC03Admission(t *testing.T) {
 				}
 				c.Count("cases_with_late_quota", 1)
 			}
-			def := &c03Quota{name: extension.DefaultQuotaName, parent: extension.RootQuotaName, isDefault: true, depth: 1, allowLent: true,
-				dims: []corev1.ResourceName{corev1.ResourceCPU, corev1.ResourceMemory}, max: c03Vec{}, min: c03Vec{}, lowered: map[corev1.ResourceName]bool{}}
-			if w.defSmall {
-				def.max[corev1.ResourceCPU] = w.genAmount(corev1.ResourceCPU)
-				def.max[corev1.ResourceMemory] = w.genAmount(corev1.ResourceMemory)
-			} else {
-				def.max[corev1.ResourceCPU] = 1 << 40
-				def.max[corev1.ResourceMemory] = 1 << 55
+			builtin := func(name, kind string, small bool) *c03Quota {
+				g := &c03Quota{name: name, builtin: kind, parent: extension.RootQuotaName, isDefault: true, exists: true, depth: 1, allowLent: true,
+					max: c03Vec{}, min: c03Vec{}, lowered: map[corev1.ResourceName]bool{}}
+				// the configured max of a built-in group declares its dimensions: mostly cpu+memory
+				g.dims = [][]corev1.ResourceName{{corev1.ResourceCPU, corev1.ResourceMemory}, {corev1.ResourceCPU, corev1.ResourceMemory}, {corev1.ResourceCPU, corev1.ResourceMemory},
+					{corev1.ResourceCPU}, {corev1.ResourceCPU, corev1.ResourceMemory, c03GPU}}[r.Intn(5)]
+				for _, d := range g.dims {
+					switch {
+					case small:
+						g.max[d] = w.genAmount(d)
+					case d == corev1.ResourceCPU:
+						g.max[d] = 1 << 44
+					case c03Countable(d):
+						g.max[d] = 1 << 30
+					default:
+						g.max[d] = 1 << 58
+					}
+				}
+				return g
 			}
+			def := builtin(extension.DefaultQuotaName, "default-quota", w.defSmall)
+			sys := builtin(extension.SystemQuotaName, "system-quota", w.sysSmall)
 			w.pl = s.newPlugin(t, c, func(a *config.ElasticQuotaArgs) {
 				a.EnableRuntimeQuota = w.runtimeOn
 				a.EnableCheckParentQuota = w.parentOn
 				a.EnableMinQuotaScale = minScale
 				a.DefaultQuotaGroupMax = c03RL(def.max)
+				a.SystemQuotaGroupMax = c03RL(sys.max)
 			})
-			c.Op("config runtimeQuota=%v checkParent=%v minScale=%v defaultGroupMax=%s memScale=%d lateQuotas=%v", w.runtimeOn, w.parentOn, minScale, c03Str(def.max), w.memScale, w.absent)
+			c.Op("gates %v", gates)
+			c.Op("config runtimeQuota=%v checkParent=%v minScale=%v defaultGroupMax=%s systemGroupMax=%s memScale=%d wideAmounts=%v subsetDims=%v maxDepth=%d podCap=%d lateQuotas=%v",
+				w.runtimeOn, w.parentOn, minScale, c03Str(def.max), c03Str(sys.max), w.memScale, w.wideAmounts, w.subsetDims, w.maxDepth, w.podCap, w.absent)
+			if w.wideAmounts {
+				c.Count("cases_wide_amounts", 1)
+			}
+			if w.subsetDims {
+				c.Count("cases_subset_dims", 1)
+			}
+			depth := 0
+			for _, q := range w.quotas {
+				if q.depth > depth {
+					depth = q.depth
+				}
+			}
+			c.Count(fmt.Sprintf("cases_tree_depth_%d", depth), 1)
+			switch nq := len(w.quotas); {
+			case nq <= 2:
+				c.Count("cases_tree_size_1_2", 1)
+			case nq <= 6:
+				c.Count("cases_tree_size_3_6", 1)
+			default:
+				c.Count("cases_tree_size_7_12", 1)
+			}
 			c.Count(fmt.Sprintf("cases_runtime_%v_parent_%v", w.runtimeOn, w.parentOn), 1)
 			for _, n := range w.order {
 				q := w.quotas[n]
 				q.obj = w.quotaObj(q)
-				w.pl.OnQuotaAdd(q.obj)
+				w.deliverQuota("add", nil, q.obj)
 				c.Op("quota-add %s", w.quotaDesc(q))
 			}
 			w.quotas[def.name] = def
-			w.order = append(w.order, def.name)
-			nNodes := r.Range(1, 3)
+			w.quotas[sys.name] = sys
+			w.order = append(w.order, def.name, sys.name)
+			nNodes := []int{1, 1, 2, 2, 3, 3, 0, 4, 5, 6}[r.Intn(10)]
 			f := kit.Pick(r, c03Factors)
 			for i := 0; i < nNodes; i++ {
 				n := &c03Node{name: fmt.Sprintf("node%d", w.nextNode), alloc: w.genNodeAlloc(f, int64(nNodes))}
@@ -1594,6 +2102,13 @@ func TestVerifC03Admission(t *testing.T) {
 			w.checkAll("after setup")
 
 			attempts := r.Range(50, 150)
+			switch r.Weighted(90, 5, 5) {
+			case 1:
+				attempts = r.Range(300, 450)
+				c.Count("cases_long_history", 1)
+			case 2:
+				attempts = r.Range(5, 30)
+			}
 			done := 0
 			lateW, delW := 0, 0
 			if w.lateMode {
@@ -1606,13 +2121,13 @@ func TestVerifC03Admission(t *testing.T) {
 						w.lateCreate(w.quotas[w.absent[0]])
 					}
 				}
-				switch r.Weighted(55, 12, 5, 8, 3, 10, 7, lateW, delW, 5) {
+				switch r.Weighted(55, 12, 5, 8, 3, 10, 7, lateW, delW, 5, 3) {
 				case 0: // scheduling attempt: a waiting pod is retried, or a new pod arrives
-					pend := w.inState(c03Pending)
+					pend := w.schedulable()
 					var p *c03Pod
-					if len(pend) > 0 && (r.Pct(45) || len(w.live()) >= 14) {
+					if len(pend) > 0 && (r.Pct(45) || len(w.live()) >= w.podCap) {
 						p = kit.Pick(r, pend)
-					} else if len(w.live()) < 14 {
+					} else if len(w.live()) < w.podCap {
 						p = w.newPod()
 					} else {
 						w.deletePod(kit.Pick(r, w.live()), "(making room)")
@@ -1623,6 +2138,15 @@ func TestVerifC03Admission(t *testing.T) {
 					done++
 				case 1:
 					if l := w.live(); len(l) > 0 {
+						var term []*c03Pod
+						for _, p := range l {
+							if p.terminating {
+								term = append(term, p)
+							}
+						}
+						if len(term) > 0 && r.Pct(60) {
+							l = term
+						}
 						w.deletePod(kit.Pick(r, l), "")
 						w.checkAll("after pod delete")
 					}
@@ -1682,8 +2206,35 @@ func TestVerifC03Admission(t *testing.T) {
 					if len(l) == 0 || r.Pct(20) {
 						l = append(l, w.inState(c03Reserved)...)
 					}
+					var ok []*c03Pod
+					for _, p := range l {
+						if !p.terminating {
+							ok = append(ok, p)
+						}
+					}
+					if len(ok) > 0 {
+						w.resize(kit.Pick(r, ok))
+					}
+				case 10: // deletion requested: the pod is terminating (deletionTimestamp set) until its delete event
+					var l []*c03Pod
+					for _, p := range w.live() {
+						if !p.terminating {
+							l = append(l, p)
+						}
+					}
 					if len(l) > 0 {
-						w.resize(kit.Pick(r, l))
+						p := kit.Pick(r, l)
+						old := p.obj
+						p.terminating = true
+						node := ""
+						if p.state == c03Bound {
+							node = "node-x"
+						}
+						p.obj = w.podObj(p, node)
+						w.pl.OnPodUpdate(old, p.obj)
+						c.Op("pod-terminating %s (state=%d)", p.name, p.state)
+						c.Count("op_pod_terminating", 1)
+						w.checkAll("after " + p.name + " became terminating")
 					}
 				}
 			}
